@@ -1,6 +1,7 @@
 package graph
 
 import (
+	"context"
 	"encoding/json"
 	"strconv"
 	"strings"
@@ -321,4 +322,60 @@ func Harness_C20_longLists() {
 	}
 	zzsym.Assert(got.nerr == failed, "one error per failed representation, none otherwise")
 	zzsym.Reach("c20.long")
+}
+
+func Setup_C05_entitiesCancel() { fedSetup() }
+
+// Harness_C05_entitiesCancel: an _entities request (1..3 representations of
+// single-lookup and batch types) whose context is cancelled before it
+// starts or inside the k-th lookup: the response function returns - no
+// join waits for a goroutine that was never started - and nothing is left
+// running afterwards.
+func Harness_C05_entitiesCancel() {
+	n := 1 + zzsym.Choice("n", 3)
+	w := &fedWorld{fault: map[string]int{}}
+	reps := make([]any, n)
+	for i := 0; i < n; i++ {
+		reps[i] = fedShapes[[]int{0, 4, 2, 1}[zzsym.Choice("shape", 4)]].rep(i)
+	}
+	ctx, cancel := context.WithCancel(context.Background())
+	at := zzsym.Choice("cancelAt", 4) // 0 never, 1 before the request, k>=2: at the start of the (k-1)-th lookup
+	if at == 1 {
+		cancel()
+	}
+	w.onLookup = func(k int) {
+		if at >= 2 && k == at-1 {
+			cancel()
+		}
+	}
+	got := fedRunCtx(ctx, w, reps)
+	zzsym.Assert(got.isNull || len(got.list) == n, "the response function returned a response")
+	if at == 0 {
+		zzsym.Assert(got.nerr == 0 && !got.isNull, "uncancelled: every representation is resolved")
+	}
+	cancel()
+	zzsym.Assert(zzsym.Quiesce() == 0, "nothing is left running after the request ended")
+	zzsym.Reach("c05.entities")
+}
+
+func Setup_C16_service() { fedSetup() }
+
+// Harness_C16_service: the federation _service field (the schema as SDL) is
+// introspection as well: with introspection disabled for the operation it is
+// refused - null and one error - whatever an earlier operation of the same
+// process was allowed to see.
+func Harness_C16_service() {
+	prior := zzsym.Choice("prior", 3) // 0 none, 1 an allowed request came first, 2 a refused one
+	if prior > 0 {
+		fedService(prior == 1)
+	}
+	enabled := zzsym.Choice("enabled", 2) == 1
+	data, nerr := fedService(enabled)
+	if enabled {
+		zzsym.Assert(nerr == 0 && strings.Contains(data, "type Alpha"), "enabled: _service answers with the schema")
+		zzsym.Reach("c16.service.on")
+	} else {
+		zzsym.Assert(nerr == 1 && !strings.Contains(data, "Alpha"), "disabled: _service is refused (one error, no schema text), whatever was answered before")
+		zzsym.Reach("c16.service.off")
+	}
 }
